@@ -111,7 +111,11 @@ float clangs(char *norm, SuperMatrix *A)
 	
     } else if (lsame_(norm, "F") || lsame_(norm, "E")) {
 	/* Find normF(A). */
-	SUPERLU_ABORT("Not implemented.");
+	sum = 0.;
+	for (j = 0; j < A->ncol; ++j)
+	    for (i = Astore->colptr[j]; i < Astore->colptr[j+1]; i++)
+		sum += Aval[i].r * Aval[i].r + Aval[i].i * Aval[i].i;
+	value = sqrt(sum);
     } else
 	SUPERLU_ABORT("Illegal norm specified.");
 
